@@ -209,6 +209,7 @@ impl Check for C09 {
             }
         }
         // (d) every segment inside an output statement maps into the line span of the corresponding input statement
+        let mut starts_injected: Vec<(u32, u32)> = vec![];
         let mut ranges: Vec<((u32, u32), (u32, u32), u32, u32, usize)> = col
             .stmts
             .iter()
@@ -217,6 +218,11 @@ impl Check for C09 {
                 let (el, ec, _) = out_table.locate(*oe);
                 let (il, _, _) = in_table.locate(*is);
                 let (ih, _, _) = in_table.locate(ie.saturating_sub(1).max(*is));
+                // does the statement now begin with injected code (`(__datadog_x_0 = ..`, `_ddiast.hook(..`)?
+                let head = body.get(*os..).unwrap_or("");
+                if head.starts_with("(__datadog_") || head.starts_with("_ddiast.") {
+                    starts_injected.push((sl, sc));
+                }
                 ((sl, sc), (el, ec), il, ih, oe - os)
             })
             .collect();
@@ -234,6 +240,27 @@ impl Check for C09 {
                 if r.3 > r.2 {
                     nontrivial = true;
                 }
+            }
+        }
+        // (e) when an output statement begins with injected code, the position of its first token resolves (greatest lower
+        // bound, what a consumer does with a run-time position) into the line span of the corresponding input statement
+        for r in &ranges {
+            let ((sl, sc), _, il, ih, _) = *r;
+            if !starts_injected.contains(&(sl, sc)) {
+                continue;
+            }
+            match map.lookup_glb(sl, sc) {
+                Some(seg) => {
+                    if let Some((_, l, _, _)) = seg.src {
+                        if l < il || l > ih {
+                            return Outcome::fail(
+                                "statement-start-resolves-elsewhere",
+                                format!("the first token of the statement at generated {sl}:{sc} resolves to input line {l} (segment at {}:{}), but the statement spans input lines {il}..{ih}", seg.gen_line, seg.gen_col),
+                            );
+                        }
+                    }
+                }
+                None => {}
             }
         }
         Outcome::pass(nontrivial, classes)
